@@ -67,6 +67,8 @@ pub enum Job {
     Eq { a: usize, b: usize },
     /// a vs a perturbed by `p`
     Perturb { a: usize, p: u8 },
+    /// a clone and a serde round trip (0 JSON, 1 compact tokens, 2 human-readable tokens, 3 clone) compare equal to a
+    Copy { a: usize, enc: u8 },
 }
 
 pub struct PairOut {
@@ -204,6 +206,27 @@ pub fn run_job(states: &[StateRef], alphas: &[Vec<Op>], follow_ops: &[Op], job: 
                 drop(ManuallyDrop::into_inner(x));
                 drop(ManuallyDrop::into_inner(y));
             }
+            Job::Copy { a, enc } => {
+                jobkind = "copy";
+                let prop = Prop::C16;
+                let x = st(a);
+                let made = match enc {
+                    0 => rt_json(&x.w),
+                    1 => rt_tok(&x.w, false),
+                    2 => rt_tok(&x.w, true),
+                    _ => Ok(x.w.clone()),
+                };
+                let what = ["json round trip", "compact round trip", "human-readable round trip", "clone"][enc as usize];
+                match made {
+                    Err(e) => chk.fail(prop, &format!("copy-could-not-be-made {}", what), e),
+                    Ok(y) => {
+                        if !(x.w == y) || !(y == x.w) {
+                            chk.fail(prop, &format!("copy-not-equal {}", what), format!("a == copy: {}, copy == a: {}", x.w == y, y == x.w));
+                        }
+                    }
+                }
+                drop(ManuallyDrop::into_inner(x));
+            }
             Job::Perturb { a, p } => {
                 jobkind = "perturb";
                 let prop = Prop::C16;
@@ -259,7 +282,7 @@ pub fn run_job(states: &[StateRef], alphas: &[Vec<Op>], follow_ops: &[Op], job: 
     if let Err(p) = r {
         drop(p);
         let msg = util::take_last_panic();
-        let prop = if matches!(job, Job::Eq { .. } | Job::Perturb { .. }) { Prop::C16 } else { Prop::C10 };
+        let prop = if matches!(job, Job::Eq { .. } | Job::Perturb { .. } | Job::Copy { .. }) { Prop::C16 } else { Prop::C10 };
         chk.fail(prop, &format!("panic {}", jobkind), msg);
     }
     out.fails = arena::with_system(|| chk.fails.iter().map(|f| Failure { prop: f.prop, key: f.key.as_str().to_owned(), detail: f.detail.as_str().to_owned() }).collect());
@@ -281,7 +304,7 @@ fn state_sets(prop: Prop, tier: &str) -> Vec<(&'static str, usize)> {
     let q = tier == "quick";
     match prop {
         Prop::C10 => if q { vec![("copy", 3), ("shape", 2)] } else { vec![("copy", 4), ("shape", 3)] },
-        _ => if q { vec![("copy", 3), ("shape", 3)] } else { vec![("copy", 4), ("shape", 4), ("alloc", 4)] },
+        _ => if q { vec![("copy", 3), ("shape", 3), ("alloc", 4)] } else { vec![("copy", 4), ("shape", 4), ("alloc", 5)] },
     }
 }
 
@@ -292,6 +315,7 @@ fn job_json(states: &[StateRef], names: &[String], alphas: &[Vec<Op>], follow: &
         Job::CloneFrom { src, dst, follow: f } => serde_json::json!({"job": "clone_from", "src": st(src), "dst": st(dst), "follow": f.map(|(d, o)| serde_json::json!({"on_dst": d, "op_index": o, "op": format!("{:?}", follow[o as usize])}))}),
         Job::Eq { a, b } => serde_json::json!({"job": "eq", "a": st(a), "b": st(b)}),
         Job::Perturb { a, p } => serde_json::json!({"job": "perturb", "a": st(a), "p": p}),
+        Job::Copy { a, enc } => serde_json::json!({"job": "copy", "a": st(a), "enc": enc}),
     }
 }
 
@@ -342,6 +366,9 @@ pub fn main_pairs(prop: Prop, tier: &str, threads: usize, evidence: Option<&str>
                 for p in 0..12u8 {
                     jobs.push(Job::Perturb { a, p });
                 }
+                for enc in 0..4u8 {
+                    jobs.push(Job::Copy { a, enc });
+                }
             }
         }
     }
@@ -386,7 +413,7 @@ pub fn main_pairs(prop: Prop, tier: &str, threads: usize, evidence: Option<&str>
     for (i, o) in flat {
         done += 1;
         if o.disabled { disabled += 1; continue; }
-        *by_kind.entry(match jobs[i] { Job::Clone { follow: None, .. } => "clone", Job::Clone { .. } => "clone+op", Job::CloneFrom { follow: None, .. } => "clone_from", Job::CloneFrom { .. } => "clone_from+op", Job::Eq { .. } => "eq", Job::Perturb { .. } => "perturb" }).or_default() += 1;
+        *by_kind.entry(match jobs[i] { Job::Clone { follow: None, .. } => "clone", Job::Clone { .. } => "clone+op", Job::CloneFrom { follow: None, .. } => "clone_from", Job::CloneFrom { .. } => "clone_from+op", Job::Eq { .. } => "eq", Job::Perturb { .. } => "perturb", Job::Copy { .. } => "copy" }).or_default() += 1;
         if o.eq_true { eq_true += 1; }
         if o.same_content { same_content += 1; if !o.eq_true { same_not_eq += 1; } }
         for f in o.fails {
@@ -455,6 +482,7 @@ pub fn replay_pairs(path: &str) -> i32 {
         "clone" => Job::Clone { src: add(&j["src"]), follow: fl(&j["follow"]) },
         "clone_from" => { let s = add(&j["src"]); let d = add(&j["dst"]); Job::CloneFrom { src: s, dst: d, follow: fl(&j["follow"]) } }
         "eq" => { let a = add(&j["a"]); let b = add(&j["b"]); Job::Eq { a, b } }
+        "copy" => Job::Copy { a: add(&j["a"]), enc: j["enc"].as_u64().unwrap() as u8 },
         _ => Job::Perturb { a: add(&j["a"]), p: j["p"].as_u64().unwrap() as u8 },
     };
     println!("replaying {:?}\n{}", job, serde_json::to_string_pretty(&j).unwrap());
